@@ -29,6 +29,7 @@ PROPS = {
                         "decimals with non-zero scale and str/f64 presentations (rust_decimal, A3); decimal decode (read_decimal) not tractable under CBMC"],
     },
     "C02": {
+        "verus": ["union_priority"],
         "level": "proof",
         "design_ref": "DESIGN.md §3 C02",
         "technique": "Kani contract harnesses per (serde call x schema node kind) cell on the real Serializer impl, postcondition = independent executable Avro spec",
@@ -43,7 +44,7 @@ PROPS = {
                        "seq/tuple x {array,duration,bytes,fixed}; struct/map x {map,duration,record}; block writer advertised-length checks.",
         "not_decided": ["str -> enum symbol, struct name -> union branch (HashMap lookups, A2)",
                         "str / f64 -> decimal (rust_decimal parse, rescale: trusted dependency A3)",
-                        "PerTypeLookup::new priority table / conflict rule (populates a HashMap)"],
+                        "which (key, priority) pairs PerTypeLookup::new registers per node kind (the table itself; populates a HashMap) - only its priority/conflict resolution step is proved (Verus)"],
     },
     "C03": {
         "level": "proof",
